@@ -102,6 +102,10 @@ type c14provCase struct {
 	conc2      bool
 	strat      int
 	warmSteps  int // calls released before the operations start (the node comes online)
+	// timer-driven reprovides before Close: 1 = every worker is dedicated to burst jobs (MaxWorkers ==
+	// DedicatedBurstWorkers: the pool refuses periodic jobs) and the schedule timer fires; 2 = one worker
+	// in all, the first scheduled reprovide parked in a slow lookup, the next one queued for the worker
+	timerStage int
 }
 
 func c14provRun(r *vfRand, c *c14provCase, tr *zzc14.Trace) (*zzc14.Plan, string) {
@@ -192,6 +196,10 @@ func c14provRun(r *vfRand, c *c14provCase, tr *zzc14.Trace) (*zzc14.Plan, string
 		return plan, "ctor error: " + err.Error()
 	}
 	plan.Close = p.Close
+	stageNote := ""
+	if c.timerStage > 0 {
+		stageNote = c14provTimerStage(r, c, p, gate)
+	}
 	// let the node come online (or not) before the operations start
 	for k := 0; k < c.warmSteps; k++ {
 		zzc14.Settle(1, nil)
@@ -247,7 +255,59 @@ func c14provRun(r *vfRand, c *c14provCase, tr *zzc14.Trace) (*zzc14.Plan, string
 		{Name: "post-refresh", Closed: closed, Run: func() error { return p.RefreshSchedule() }},
 	}
 	plan.Run(tr)
-	return plan, ""
+	return plan, stageNote
+}
+
+// c14provTimerStage brings the provider to the instant at which a scheduled (timer-driven) reprovide cannot
+// get a worker: the node comes online, a key is provided and scheduled, virtual time passes until the schedule
+// timer fires.  With timerStage 2 the first scheduled reprovide is left parked in its lookup and time passes
+// again, so that the next one queues for the only worker.  Close (step 0 of the plan) arrives at that instant.
+func c14provTimerStage(r *vfRand, c *c14provCase, p *SweepingProvider, gate *zzc14.Gate) string {
+	releaseAll := func(keep func(*zzc14.Call) bool) {
+		for k := 0; k < 400; k++ {
+			zzc14.Settle(1, nil)
+			n := 0
+			for _, call := range gate.Pending() {
+				if keep != nil && keep(call) {
+					continue
+				}
+				gate.Release(call)
+				n++
+			}
+			if n == 0 {
+				return
+			}
+		}
+	}
+	releaseAll(nil)
+	if !p.connectivity.IsOnline() {
+		return "timer stage: the node did not come online"
+	}
+	keys := []mh.Multihash{c14provHash(r), c14provHash(r)}
+	if err := p.StartProviding(true, keys...); err != nil {
+		return "timer stage: StartProviding: " + err.Error()
+	}
+	releaseAll(nil)
+	p.scheduleLk.Lock()
+	scheduled := p.schedule.Size()
+	p.scheduleLk.Unlock()
+	// the schedule timer fires within one reprovide interval; everything parked until then is a durable block,
+	// so virtual time can pass with calls parked (nothing waits for a lock while Close has not been called)
+	zzc14.Arm("timer stage: first interval")
+	time.Sleep(c.interval + time.Second)
+	zzc14.Disarm()
+	zzc14.Settle(2, nil)
+	if c.timerStage == 2 {
+		// leave the scheduled reprovide in its lookup; let the timer fire once more
+		zzc14.Arm("timer stage: second interval")
+		time.Sleep(c.interval)
+		zzc14.Disarm()
+		zzc14.Settle(2, nil)
+	} else {
+		releaseAll(nil)
+	}
+	st := p.workerPool.Stats()
+	return fmt.Sprintf("timer stage %d: %d region(s) scheduled, %d call(s) parked, periodic workers queued=%d", c.timerStage, scheduled, gate.NPending(), st.Queued[periodicWorker])
 }
 
 func c14provGen(r *vfRand, i int) *c14provCase {
@@ -263,6 +323,27 @@ func c14provGen(r *vfRand, i int) *c14provCase {
 		c.workers = [3]int{2, 1, 1}
 	}
 	c.warmSteps = []int{0, 0, 3, 8, 30}[r.Intn(5)]
+	if i%6 == 5 {
+		// Close while a timer-driven reprovide cannot get a worker
+		c.timerStage = 1 + (i/6)%2
+		c.interval, c.failPct, c.noAddrs, c.warmSteps = time.Hour, 0, false, 0
+		c.npeers = 3 + r.Intn(8)
+		if c.timerStage == 1 {
+			w := 1 + r.Intn(2)
+			c.workers = [3]int{w, 0, w}
+		} else {
+			c.workers = [3]int{1, 0, 0}
+		}
+		c.closeAt = 0
+		// a second Close that waits in sync.Once for a first Close that never returns is blocked on a mutex:
+		// the bubble could not even end; one Close is enough to see whether it returns
+		c.conc2 = false
+		c.ops = nil
+		if r.Bool() {
+			c.ops = []string{"once"}
+		}
+		return c
+	}
 	if i%8 == 7 {
 		c.ctor = []string{"option", "no-router", "workers", "connectivity"}[(i/8)%4]
 		return c
@@ -307,7 +388,7 @@ func TestVerifC14Provider(t *testing.T) {
 		}
 		c := c14provGen(r, i)
 		desc := map[string]any{"case": zzc14.CaseID(4, i), "seed": seed, "pkg": "provider", "comp": "provider", "ctor": c.ctor, "interval_h": c.interval.Hours(), "ownKeystore": c.ownKs,
-			"ownDatastore": c.ownDs, "npeers": c.npeers, "K": c.k, "failPct": c.failPct, "workers": c.workers, "noAddrs": c.noAddrs, "warm": c.warmSteps,
+			"ownDatastore": c.ownDs, "npeers": c.npeers, "K": c.k, "failPct": c.failPct, "workers": c.workers, "noAddrs": c.noAddrs, "warm": c.warmSteps, "timerStage": c.timerStage,
 			"ops": c.ops, "closeAt": c.closeAt, "closeOp1": c.closeOp1, "closeDelay": c.closeDelay, "concurrent2": c.conc2, "strategy": c.strat}
 		curDesc = desc
 		tr := &zzc14.Trace{}
@@ -327,7 +408,7 @@ func TestVerifC14Provider(t *testing.T) {
 			}
 			sort.Strings(results)
 		}
-		sig := fmt.Sprintf("prov|ctor=%s|sched=%v ks=%v ds=%v w=%d|n=%d|close@%s|c2=%v|%s", c.ctor, c.interval > 0, c.ownKs, c.ownDs, c.workers[0], c.npeers/4,
+		sig := fmt.Sprintf("prov|ctor=%s|sched=%v ks=%v ds=%v w=%v t%d|n=%d|close@%s|c2=%v|%s", c.ctor, c.interval > 0, c.ownKs, c.ownDs, c.workers, c.timerStage, c.npeers/4,
 			zzc14.CloseClass(c.closeAt), c.conc2, strings.Join(results, ","))
 		cfg := 0
 		if c.ownKs {
